@@ -7,6 +7,7 @@ package c10
 // and the same listeners with the configuration the operator gave them.
 
 import (
+	"sync"
 	"bufio"
 	"encoding/json"
 	"fmt"
@@ -219,6 +220,21 @@ func runSegment(dir string, h History, from int, st segState) (segReport, error)
 func runRestart(dir string) (restartReport, error) {
 	var rep restartReport
 	line, err := runChild(dir, childCfg{Mode: "restart", Dir: dir}, "REPORT ")
+	if _, infra := err.(errInfra); err != nil && !infra {
+		// a start that only restores and reports changes nothing on disk, so it can be repeated: a
+		// defect in Start() for this state shows again, a child lost to the machine (seen once in
+		// forty loaded runs, not reproducible from the saved case) does not
+		statsMu.Lock()
+		statsB["restart_child_lost_once"]++
+		core.SetExtra("restart_child_lost_once", statsB["restart_child_lost_once"])
+		statsMu.Unlock()
+		first := err
+		if line, err = runChild(dir, childCfg{Mode: "restart", Dir: dir}, "REPORT "); err != nil {
+			if _, infra := err.(errInfra); !infra {
+				err = fmt.Errorf("%v (first attempt: %v)", err, first)
+			}
+		}
+	}
 	if err != nil {
 		return rep, err
 	}
@@ -240,6 +256,9 @@ func runChild(dir string, cfg childCfg, prefix string) (string, error) {
 	cmd.Env = append(os.Environ(), "VERIF_C10_CHILD="+cf, "VERIF_OUT=", "VERIF_REPLAY=")
 	cmd.ExtraFiles = []*os.File{pw}
 	cmd.Dir = dir
+	var errOut tailBuf
+	cmd.Stderr = &errOut
+	cmd.Stdout = &errOut
 	if err := cmd.Start(); err != nil {
 		pr.Close()
 		pw.Close()
@@ -263,10 +282,29 @@ func runChild(dir string, cfg childCfg, prefix string) (string, error) {
 			return "", fmt.Errorf("Start() returned before it had restored the sessions")
 		}
 		if err != nil {
-			return "", fmt.Errorf("child ended without a report: %v", err)
+			cmd.Wait()
+			return "", fmt.Errorf("child ended without a report: %v (%v); its last output: %q", err, cmd.ProcessState, errOut.String())
 		}
 	}
 }
+
+// tailBuf keeps the last 2 KiB written to it.
+type tailBuf struct {
+	mu sync.Mutex
+	b  []byte
+}
+
+func (t *tailBuf) Write(p []byte) (int, error) {
+	t.mu.Lock()
+	defer t.mu.Unlock()
+	t.b = append(t.b, p...)
+	if len(t.b) > 2048 {
+		t.b = t.b[len(t.b)-2048:]
+	}
+	return len(p), nil
+}
+
+func (t *tailBuf) String() string { t.mu.Lock(); defer t.mu.Unlock(); return string(t.b) }
 
 func checkC(h History) *core.Violation {
 	return onExistingFile(h, runC(h, h.dbMode()), func() *core.Violation { return runC(h, "fresh") })
